@@ -358,3 +358,10 @@ def r02_6(ctx):
 @rule("R02.7", min_instances=8, desc="pack order of the ODE's p input under DirectCollocation (same packing helper as shooting)")
 def r02_7(ctx):
     check_pack_order(ctx)
+
+
+@rule("R02.8", min_instances=20, desc="layout of the collocation lists (layout interpreter, swept over N, M, degree): Xc[k][i] starts with X[k] / its own start variable, xr/xk/poly_coeff address the same interval, list lengths match their position kinds")
+def r02_8(ctx):
+    from .layout_rules import collocation_content, kinds_table
+    collocation_content(ctx)
+    kinds_table(ctx, "DirectCollocation")
